@@ -68,7 +68,7 @@ func (p *c04Probe) execute() *lint.LintResult {
 
 type probeCertL struct{ c04Probe }
 
-func (p *probeCertL) CheckApplies(*x509.Certificate) bool         { return p.applies() }
+func (p *probeCertL) CheckApplies(*x509.Certificate) bool        { return p.applies() }
 func (p *probeCertL) Execute(*x509.Certificate) *lint.LintResult { return p.execute() }
 
 type probeCertCfgL struct{ probeCertL }
@@ -80,7 +80,7 @@ func (p *probeCertCfgL) Configure() interface{} {
 
 type probeCRLL struct{ c04Probe }
 
-func (p *probeCRLL) CheckApplies(*x509.RevocationList) bool         { return p.applies() }
+func (p *probeCRLL) CheckApplies(*x509.RevocationList) bool        { return p.applies() }
 func (p *probeCRLL) Execute(*x509.RevocationList) *lint.LintResult { return p.execute() }
 
 type probeCRLCfgL struct{ probeCRLL }
@@ -92,7 +92,7 @@ func (p *probeCRLCfgL) Configure() interface{} {
 
 type probeOCSPL struct{ c04Probe }
 
-func (p *probeOCSPL) CheckApplies(*ocsp.Response) bool         { return p.applies() }
+func (p *probeOCSPL) CheckApplies(*ocsp.Response) bool        { return p.applies() }
 func (p *probeOCSPL) Execute(*ocsp.Response) *lint.LintResult { return p.execute() }
 
 type probeOCSPCfgL struct{ probeOCSPL }
